@@ -411,7 +411,7 @@ func tlaTuples(ts [][]int) string {
 }
 
 func checkC14(r *Run) {
-	maxCalls := pick(r, 3, 5)
+	maxCalls := pick(r, 3, 6)
 	var total, totalEdges atomic.Int64
 	for _, v := range writerVariants {
 		gen := fmt.Sprintf(`---- MODULE Gen_Writer ----
